@@ -15,7 +15,7 @@ Rec == ndJsonDeserialize(IOEnv.TRACE)
 VARIABLE i
 tvars == <<vars, i>>
 
-Boot == [docs |-> <<>>, tcli |-> None, pre |-> <<>>, app |-> <<>>, via |-> "cli", noshell |-> FALSE, dirarg |-> FALSE, compat |-> FALSE]
+Boot == [docs |-> <<>>, tcli |-> None, pre |-> <<>>, app |-> <<>>, via |-> "cli", noshell |-> FALSE, dirarg |-> FALSE, compat |-> FALSE, rel |-> FALSE]
 TraceInit == /\ TLCSet(1, 0)
              /\ i = 0 /\ sc = Boot /\ d = 1 /\ k = 1 /\ clock = 0 /\ lim = None /\ isGlobal = FALSE /\ status = "-"
              /\ outs = <<>> /\ res = <<>> /\ ran = <<>> /\ wall = <<>> /\ exit = None /\ pc = "done"
